@@ -53,7 +53,11 @@ def main():
     expr = job.get('expr') or vf_gen.render(job['tokens'])
     res = {'id': job['id'], 'expr': expr}
     try:
-        M = assemble.assemble(expr, kvs, args=args)
+        if job.get('twospace'):
+            kvs1 = tuple(bspline.KnotVector(np.array(k, dtype=float), p) for k, p in zip(job['kvs1'], job['ps1']))
+            M = assemble.assemble(expr, (kvs, kvs1), args=args, bfuns=[('u', 1, 0), ('v', 1, 1)])
+        else:
+            M = assemble.assemble(expr, kvs, args=args)
         if hasattr(M, 'toarray'):
             M = M.toarray()
         M = np.asarray(M, dtype=float)
